@@ -3,7 +3,7 @@
 From Coq Require Import List NArith ZArith Bool Lia ZifyBool ZifyN.
 From SNT Require Import Base.Outcome Encoder.Decimal Encoder.DecimalProofs Encoder.Utf8
   Encoder.VT Encoder.VTProofs Encoder.Encode Encoder.EncodeStream Encoder.Denote Encoder.EncodeProofs Encoder.EncodeSgrProofs
-  Gen.TabEncoder.
+  Encoder.Color256 Encoder.Color256Proofs Encoder.EncodeC20 Gen.TabEncoder.
 Import ListNotations.
 Local Open Scope N_scope.
 Arguments print : simpl never.
@@ -87,8 +87,8 @@ Section Meaning.
     intros Hok Hraw. destruct c; try discriminate Hraw; cbn [cmd_ok] in Hok.
     - (* Char *)
       eexists. split; [reflexivity|]. cbn [Denote.denote].
-      apply andb_prop in Hok. destruct Hok as [Hok H27]. apply andb_prop in Hok. destruct Hok as [Hs Hb].
-      apply char_good; [exact Hs | destruct (between 127 c 159); [discriminate Hb | reflexivity] | intros ->; discriminate H27].
+      apply andb_prop in Hok. destruct Hok as [Hs Hi].
+      apply (char_good c Hs). destruct (char_introducer c); [discriminate Hi | reflexivity].
     - (* Face *)
       eexists. split; [reflexivity|]. bsplit Hok. apply face_good; assumption.
     - (* FaceModify *)
@@ -133,8 +133,7 @@ Section Meaning.
     - eexists. split; [reflexivity|]. apply good_nil.
     - eexists. split; [reflexivity|]. apply good_nil.
     - (* Termcap *)
-      eexists. split; [reflexivity|]. apply andb_prop in Hok. destruct Hok as [Hb Hne].
-      apply termcap_good; [exact Hb|]. intros ->. discriminate Hne.
+      eexists. split; [reflexivity|]. apply termcap_good. exact Hok.
     - (* Color *)
       eexists. split; [reflexivity|]. cbn [Denote.denote]. apply andb_prop in Hok. destruct Hok as [Hc _].
       change (match color with Some c => [35] ++ hex2 (cr c) ++ hex2 (cg c) ++ hex2 (cb c) | None => [63] end)
@@ -232,29 +231,16 @@ Lemma c05_face_exact_thm :
   forall (pal256 gray4 : rgba -> N), (forall c, pal256 c < 256) ->
   forall (glyphs kitty : bool) (f : face), cmd_ok (Face f) = true ->
   exists bs t, encode pal256 gray4 (mkCaps TrueColor glyphs kitty) (Face f) = Ok bs /\
-    vt_ops bs = [OSgr t] /\
+    vt_ops bs = [OSgr t] /\ t_bad t = false /\
     forall prior : rendition, rt_apply t prior = face_rendition f.
 Proof.
   intros pal gray Hp gl ki f Hok.
   destruct (encode_meaning pal gray Hp (mkCaps TrueColor gl ki) (Face f) Hok) as (bs & E & M & _).
-  exists bs, (face_trans pal gray TrueColor f). split; [exact E|]. split; [exact M|].
+  exists bs, (face_trans pal gray TrueColor f). split; [exact E|]. split; [exact M|]. split; [reflexivity|].
   intros prior. apply face_trans_truecolor.
 Qed.
 
-Lemma c05_face_reduced_thm :
-  forall (pal256 gray4 : rgba -> N), (forall c, pal256 c < 256) ->
-  forall (cp : caps) (f : face) (c : rgba), cmd_ok (Face f) = true ->
-  cp_depth cp <> TrueColor -> f_fg f = Some c ->
-  exists bs t n, encode pal256 gray4 cp (Face f) = Ok bs /\ vt_ops bs = [OSgr t] /\
-    (forall prior, r_fg (rt_apply t prior) = CIdx n) /\
-    n = match cp_depth cp with EightBit => pal256 c | _ => gray_entry (gray4 c) end.
-Proof.
-  intros pal gray Hp cp f c Hok Hd Hf.
-  destruct (encode_meaning pal gray Hp cp (Face f) Hok) as (bs & E & M & _).
-  destruct (face_trans_reduced pal gray (cp_depth cp) f c (mkRend INormal false LNone false false false false CDefault CDefault CDefault) Hd Hf) as (n & _ & Hn).
-  exists bs, (face_trans pal gray (cp_depth cp) f), n. split; [exact E|]. split; [exact M|]. split; [|exact Hn].
-  intros prior. destruct (face_trans_reduced pal gray (cp_depth cp) f c prior Hd Hf) as (n' & H1 & H2). congruence.
-Qed.
+
 
 Lemma c05_selfcontained_thm :
   forall (pal256 gray4 : rgba -> N), (forall c, pal256 c < 256) ->
@@ -277,3 +263,120 @@ Proof.
   exists bs. split; assumption.
 Qed.
 
+
+(* ---------- KNOWN FINDING: characters that open a control sequence ---------- *)
+Lemma char_introducer_refuted pal256 gray4 cp c :
+  char_introducer c = true ->
+  exists bs, encode pal256 gray4 cp (Char c) = Ok bs /\ vt_complete bs = false.
+Proof.
+  unfold char_introducer. intros H. eexists. split; [reflexivity|].
+  repeat (apply orb_prop in H; destruct H as [H|H]);
+    apply N.eqb_eq in H; subst c; vm_compute; reflexivity.
+Qed.
+
+(* ---------- no panic with the colour reduction inside the model ---------- *)
+Theorem encode_c20_total cp c : is_ok (encode_c20 cp c) = true.
+Proof.
+  unfold encode_c20. destruct (cp_depth cp); cbn [bind]; try apply encode_total.
+  rewrite all_ok_pal. cbn [bind]. apply encode_total.
+Qed.
+
+Lemma encode_c20_eq cp c : encode_c20 cp c = encode pal256_exact gray4_exact cp c.
+Proof. unfold encode_c20. destruct (cp_depth cp); cbn [bind]; try reflexivity. rewrite all_ok_pal. reflexivity. Qed.
+
+Lemma pal256_exact_byte c : (pal256_exact c < 256)%N.
+Proof. destruct (pal256_exact_optimal c) as [H _]. lia. Qed.
+
+(* ---------- C20: the bytes carry the reduced colour of every role ---------- *)
+Definition colours_fm (fg bg ul : rgba) : facemod :=
+  mkFM false (Some fg) (Some bg) None (Some ul) None None None None.
+
+Definition only_colours (fg bg ul : option colour) : rtrans :=
+  mkRT None None None None None None None fg bg ul false.
+
+Theorem c20_roles d gl ki fg bg ul :
+  rgba_ok fg = true -> rgba_ok bg = true -> rgba_ok ul = true ->
+  exists bs,
+    encode_c20 (mkCaps d gl ki) (FaceModify (colours_fm fg bg ul)) = Ok bs /\
+    vt_complete bs = true /\
+    vt_ops bs =
+      [OSgr match d with
+            | TrueColor => only_colours (Some (CRgb (cr fg) (cg fg) (cb fg))) (Some (CRgb (cr bg) (cg bg) (cb bg)))
+                                        (Some (CRgb (cr ul) (cg ul) (cb ul)))
+            | EightBit => only_colours (Some (CIdx (pal256_exact fg))) (Some (CIdx (pal256_exact bg)))
+                                       (Some (CIdx (pal256_exact ul)))
+            | Gray => only_colours (Some (CIdx (gray_entry (gray4_exact fg)))) (Some (CIdx (gray_entry (gray4_exact bg))))
+                                   None     (* an underline colour has no grey rendering: nothing is sent *)
+            end].
+Proof.
+  intros Hf Hb Hu.
+  assert (Hok : cmd_ok (FaceModify (colours_fm fg bg ul)) = true).
+  { cbn [cmd_ok colours_fm fm_fg fm_bg fm_ucolor orgba_ok]. rewrite Hf, Hb, Hu. reflexivity. }
+  destruct (encode_meaning pal256_exact gray4_exact pal256_exact_byte (mkCaps d gl ki) _ Hok) as (bs & E & M & C).
+  exists bs. rewrite encode_c20_eq. split; [exact E|]. split; [apply C; reflexivity|].
+  rewrite M. destruct d; reflexivity.
+Qed.
+
+(* ---------- C05: reduced depths select one palette entry per colour, every role ---------- *)
+Definition reduced_entry (pal256 gray4 : rgba -> N) (d : depth) (c : rgba) : N :=
+  match d with EightBit => pal256 c | _ => gray_entry (gray4 c) end.
+
+Definition reduced_colour pal256 gray4 d (c : option rgba) : colour :=
+  match c with Some c => CIdx (reduced_entry pal256 gray4 d c) | None => CDefault end.
+
+Lemma face_trans_reduced_both pal256 gray4 d f prior :
+  d <> TrueColor ->
+  r_fg (rt_apply (face_trans pal256 gray4 d f) prior) = reduced_colour pal256 gray4 d (f_fg f) /\
+  r_bg (rt_apply (face_trans pal256 gray4 d f) prior) = reduced_colour pal256 gray4 d (f_bg f) /\
+  r_ulc (rt_apply (face_trans pal256 gray4 d f) prior) = CDefault.
+Proof.
+  intros Hd. unfold face_trans, rt_apply, reduced_colour, reduced_entry. cbn [r_fg r_bg r_ulc t_fg t_bg t_ulc pick].
+  destruct d; [congruence | |]; destruct (f_fg f), (f_bg f); repeat split; reflexivity.
+Qed.
+
+(* FaceModify: each named colour becomes one palette entry; an unnamed one is left alone
+   (or reset); under Gray the underline colour is not sent at all *)
+Lemma fm_trans_reduced_fields pal256 gray4 d m :
+  d <> TrueColor ->
+  let t := fm_trans pal256 gray4 d m in
+  let base := if fm_reset m then rt_reset else rt_id in
+  let idx (c : option rgba) := option_map (fun c => CIdx (reduced_entry pal256 gray4 d c)) c in
+  t_fg t = over (idx (fm_fg m)) (t_fg base) /\
+  t_bg t = over (idx (fm_bg m)) (t_bg base) /\
+  t_ulc t = match d with Gray => t_ulc base | _ => over (idx (fm_ucolor m)) (t_ulc base) end.
+Proof.
+  intros Hd. unfold fm_trans, reduced_entry. cbn [t_fg t_bg t_ulc].
+  destruct d; [congruence | |]; destruct (fm_fg m), (fm_bg m), (fm_ucolor m); repeat split; reflexivity.
+Qed.
+
+Lemma c05_face_reduced_thm :
+  forall (pal256 gray4 : rgba -> N), (forall c, pal256 c < 256) ->
+  forall (cp : caps) (f : face), cmd_ok (Face f) = true -> cp_depth cp <> TrueColor ->
+  exists bs t, encode pal256 gray4 cp (Face f) = Ok bs /\ vt_ops bs = [OSgr t] /\
+    forall prior,
+      r_fg (rt_apply t prior) = reduced_colour pal256 gray4 (cp_depth cp) (f_fg f) /\
+      r_bg (rt_apply t prior) = reduced_colour pal256 gray4 (cp_depth cp) (f_bg f) /\
+      r_ulc (rt_apply t prior) = CDefault.
+Proof.
+  intros pal gray Hp cp f Hok Hd.
+  destruct (encode_meaning pal gray Hp cp (Face f) Hok) as (bs & E & M & _).
+  exists bs, (face_trans pal gray (cp_depth cp) f). split; [exact E|]. split; [exact M|].
+  intros prior. apply face_trans_reduced_both, Hd.
+Qed.
+
+Lemma c05_facemodify_reduced_thm :
+  forall (pal256 gray4 : rgba -> N), (forall c, pal256 c < 256) ->
+  forall (cp : caps) (m : facemod), cmd_ok (FaceModify m) = true -> cp_depth cp <> TrueColor ->
+  exists bs, encode pal256 gray4 cp (FaceModify m) = Ok bs /\
+    let t := fm_trans pal256 gray4 (cp_depth cp) m in
+    let base := if fm_reset m then rt_reset else rt_id in
+    let idx (c : option rgba) := option_map (fun c => CIdx (reduced_entry pal256 gray4 (cp_depth cp) c)) c in
+    vt_ops bs = (if rtrans_is_id t then [] else [OSgr t]) /\
+    t_fg t = over (idx (fm_fg m)) (t_fg base) /\
+    t_bg t = over (idx (fm_bg m)) (t_bg base) /\
+    t_ulc t = match cp_depth cp with Gray => t_ulc base | _ => over (idx (fm_ucolor m)) (t_ulc base) end.
+Proof.
+  intros pal gray Hp cp m Hok Hd.
+  destruct (encode_meaning pal gray Hp cp (FaceModify m) Hok) as (bs & E & M & _).
+  exists bs. split; [exact E|]. split; [exact M|]. apply fm_trans_reduced_fields, Hd.
+Qed.
